@@ -480,6 +480,19 @@ func groupNoCopy() {
 	t.add("InV", sref(s), 7, "default")
 	t.add("L", list(ptr(sref(s))), 1, "default")
 	t.add("W", binary(), 3, "default", "nocopy")
+	// the option after an omitted / empty type slot (a spelling the resolver's own tests declare legal)
+	e := newStruct("nocopy")
+	e.addRaw("T1", prim("string"), `frugal:"1,default,,nocopy"`, 1, true)
+	e.addRaw("T2", binary(), `frugal:"2,optional,,nocopy"`, 2, true)
+	e.addRaw("T3", ptr(prim("string")), `frugal:"3,optional,,nocopy"`, 3, true)
+	e.addRaw("S", prim("string"), `frugal:"4,default,string"`, 4, true)
+	// other spellings around the type slot, one struct each (some are rejected: the model decides)
+	for _, tag := range []string{"`thrift:\"T4,4,required\" frugal:\",,,nocopy\"`", "`frugal:\"5,default,\"`",
+		"`frugal:\"6,default, string , nocopy \"`", "`frugal:\"7,default,,\"`", "`frugal:\"8,required, ,nocopy\"`"} {
+		x := newStruct("nocopy")
+		x.addRaw("T", prim("string"), tag[1:len(tag)-1], int(tag[strings.IndexAny(tag, "45678")]-'0'), true)
+		x.addRaw("B", binary(), `frugal:"20,default,binary,nocopy"`, 20, true)
+	}
 	// nocopy fields in a struct with declared (non-empty) defaults: a zero-length value must still
 	// override the default
 	d := newStruct("nocopy")
